@@ -35,6 +35,7 @@ type Exchange struct {
 	written     bytes.Buffer // every byte the handler wrote to the body
 	readOff     int          // bytes consumed by the client-side reader
 	handlerDone bool
+	quiet       bool  // cut, but the handler's context is only cancelled by its first failing write (CutQuietly)
 	cut         bool  // the connection was cut (client went away / script)
 	cutErr      error // what client-side reads return after the cut (nil: clean EOF at the cut point)
 	cutAt       int   // client may read written[:cutAt] after a cut
@@ -90,6 +91,22 @@ func (e *Exchange) Cut(err error) {
 	}
 }
 
+// CutQuietly severs the exchange as a client does whose departure the server has not noticed yet: client-side
+// reads return err and handler writes fail from now on, but the handler's request context is only cancelled
+// once a write of the handler has failed (the server learns of the disconnect through its failing write, as
+// it does when the peer's reset arrives with the next segment).
+func (e *Exchange) CutQuietly(err error) {
+	e.mu.Lock()
+	if !e.cut {
+		e.cut = true
+		e.quiet = true
+		e.cutErr = err
+		e.cutAt = e.written.Len()
+	}
+	e.cond.Broadcast()
+	e.mu.Unlock()
+}
+
 // respWriter mimics net/http's server-side buffering: status, headers and body bytes become visible
 // to the client only when the handler calls Flush, when more than 4 KiB are pending, or when the handler
 // returns. (A bare WriteHeader does not reach the client by itself.)
@@ -139,6 +156,10 @@ func (w *respWriter) Write(p []byte) (int, error) {
 		w.status = http.StatusOK
 	}
 	if w.e.cut {
+		if w.e.quiet && w.e.cancel != nil {
+			w.e.quiet = false
+			go w.e.cancel() // the failing write is how the server learns that the client is gone
+		}
 		return 0, ErrCut
 	}
 	w.pending.Write(p)
